@@ -5,7 +5,8 @@ HARNESS = "c13_task"
 RULE = ("case = (result type in {void, QString, unique_ptr<int>, instance-counted}, sequence of operations over "
         "{copy promise, obtain task, copy task, then (plain | capturing its own task | re-entering: drops all task copies "
         "and finishes another promise), finish, destroy context, drop a promise copy, drop a task copy}); every "
-        "sequence of length 1..L that respects the API preconditions (one finish, one then, then() only on a live "
+        "sequence of length 1..L that respects the API preconditions (one finish, one then - plus optionally a second, self-capturing then() "
+        "once the first has consumed the value, which may or may not run but must be released -, then() only on a live "
         "context) is executed on fresh real objects (quick L=7, thorough L=9); non-trivial = both a continuation was "
         "attached and the promise was finished; oracle = reference model of invocation count (1 iff attached, finished "
         "and context alive at the later of the two), received value, instance counter back to zero after all "
